@@ -1,13 +1,4 @@
 // ---- shim core: std items the extracted code refers to (trusted; see DESIGN.md 2.3) ----
-#[verifier::external_type_specification]
-#[verifier::external_body]
-pub struct ExIoError(std::io::Error);
-
-pub mod io {
-    pub use std::io::Error;
-    pub type Result<T> = std::result::Result<T, std::io::Error>;
-}
-
 // big-endian helpers used by specs of bytes/std shims (bit-vector definitions; inverse lemmas are proved in spec/wire.rs)
 pub open spec fn be16(n: u16) -> Seq<u8> { seq![(n >> 8) as u8, (n & 0xff) as u8] }
 pub open spec fn be32(n: u32) -> Seq<u8> { seq![(n >> 24) as u8, ((n >> 16) & 0xff) as u8, ((n >> 8) & 0xff) as u8, (n & 0xff) as u8] }
@@ -42,3 +33,6 @@ impl VxToBe16 for u16 {
 // array equality on [u8; N] is element-wise (std guarantee; vstd leaves PartialEq on arrays uninterpreted)
 pub broadcast axiom fn axiom_array_u8_eq<const N: usize>(a: [u8; N], b: [u8; N])
     ensures #[trigger] vstd::std_specs::cmp::PartialEqSpec::eq_spec(&a, &b) == (a@ == b@);
+
+pub assume_specification<'a, T: Copy>[Option::<&'a T>::copied](o: Option<&'a T>) -> (r: Option<T>)
+    ensures r == (match o { Some(x) => Some(*x), None => None::<T> });
